@@ -693,4 +693,98 @@ theorem spec_accepted (h : wf C = true) (ops : List Op) (hc : calm C ops = true)
   rw [admits_quiet _ (quiet_run hc init quiet_init)]
   simp [hb, hreq, hnf]
 
+/-! ### Observers leave the object as it was; independent specification calls commute -/
+
+/-- a reporting / diagnostic / plotting call leaves the state as it was, whether it raises or not -/
+theorem observer_keeps_state (s : State) (o : Op) (h : observer C o = true) : next C s o = s := by
+  unfold observer at h
+  simp only [Bool.and_eq_true, Option.isNone_iff_eq_none, Bool.not_eq_true'] at h
+  obtain ⟨⟨hw, hf⟩, hs⟩ := h
+  unfold next
+  split
+  · apply State.ext3
+    · rw [apply_slots, hw]
+    · rw [apply_fitted, hf]; simp
+    · rw [apply_regs, hs]
+  · rfl
+
+/-- striking every observer call out of a history does not change the state it leads to -/
+theorem observers_erasable : ∀ (ops : List Op) (s : State),
+    run C s (ops.filter fun o => !observer C o) = run C s ops := by
+  intro ops
+  induction ops with
+  | nil => intro s; rfl
+  | cons o rest ih =>
+    intro s
+    rw [run_cons]
+    by_cases ho : observer C o = true
+    · rw [List.filter_cons_of_neg (by simp [ho]), observer_keeps_state s o ho]
+      exact ih s
+    · rw [List.filter_cons_of_pos (by simpa using ho), run_cons]
+      exact ih _
+
+/-- in a class without registers no method sets or is locked by one (also for ids outside the table) -/
+theorem clean_sig (h : clean C = true) (m : Nat) : (C.sig m).sticky = none ∧ (C.sig m).lock = none := by
+  unfold Cls.sig
+  rw [List.getD_eq_getElem?_getD]
+  cases hm : C.sigs[m]? with
+  | none => simp [noMethod]
+  | some g =>
+    have hg : g ∈ C.sigs := List.mem_of_getElem? hm
+    have := (List.all_eq_true.mp h) g hg
+    simpa using this
+
+/-- a specification call of a class without registers: what it does to a state -/
+theorem next_spec (h : wf C = true) (hc : clean C = true) (s : State) (o : Op) (k : Nat)
+    (hw : (C.sig o.m).writes = some k) :
+    next C s o = if (C.sig o.m).blocked = true then s else { s with slots := upd s.slots k o } := by
+  obtain ⟨_, hreq, hnf, hfit⟩ := wf_spec h hw
+  obtain ⟨hst, hlk⟩ := clean_sig hc o.m
+  unfold next
+  rw [admits_def, hreq, hnf, hlk]
+  by_cases hb : (C.sig o.m).blocked = true
+  · simp [hb]
+  · have hb' : (C.sig o.m).blocked = false := by simpa using hb
+    simp only [hb', Bool.not_false, List.all_nil, Bool.and_self, Bool.true_or, if_true]
+    simp only [Bool.false_eq_true, if_false]
+    apply State.ext3
+    · rw [apply_slots, hw]
+    · rw [apply_fitted, hfit]; simp
+    · rw [apply_regs, hst]
+
+theorem upd_comm (f : Nat → Option Op) (j k : Nat) (a b : Op) (hne : j ≠ k) :
+    upd (upd f j a) k b = upd (upd f k b) j a := by
+  funext i
+  unfold upd
+  by_cases h1 : i = k
+  · have h2 : ¬ i = j := fun e => hne (e.symm.trans h1)
+    rw [if_pos h1, if_neg h2, if_pos h1]
+  · by_cases h2 : i = j
+    · rw [if_neg h1, if_pos h2, if_pos h2]
+    · rw [if_neg h1, if_neg h2, if_neg h2, if_neg h1]
+
+/-- two specification calls of different slots commute, from any state -/
+theorem spec_calls_commute (h : wf C = true) (hc : clean C = true) (s : State) (a b : Op) (ka kb : Nat)
+    (ha : (C.sig a.m).writes = some ka) (hb : (C.sig b.m).writes = some kb) (hne : ka ≠ kb) :
+    next C (next C s a) b = next C (next C s b) a := by
+  simp only [next_spec h hc _ a ka ha, next_spec h hc _ b kb hb]
+  cases (C.sig a.m).blocked <;> cases (C.sig b.m).blocked <;> simp [upd_comm _ ka kb a b hne]
+
+/-- a list of specification calls of pairwise different slots leads to the same state in any order -/
+theorem spec_order_irrelevant (h : wf C = true) (hc : clean C = true) {l₁ l₂ : List Op} (p : l₁.Perm l₂)
+    (hs : ∀ o ∈ l₁, ((C.sig o.m).writes).isSome = true)
+    (hd : ∀ x ∈ l₁, ∀ y ∈ l₁, x ≠ y → (C.sig x.m).writes ≠ (C.sig y.m).writes) (s : State) :
+    run C s l₁ = run C s l₂ := by
+  unfold run
+  apply List.Perm.foldl_eq' p
+  intro x hx y hy z
+  by_cases hxy : x = y
+  · rw [hxy]
+  · obtain ⟨kx, hkx⟩ := Option.isSome_iff_exists.mp (hs x hx)
+    obtain ⟨ky, hky⟩ := Option.isSome_iff_exists.mp (hs y hy)
+    have hne : kx ≠ ky := by
+      intro e
+      exact hd x hx y hy hxy (by rw [hkx, hky, e])
+    exact spec_calls_commute h hc z x y kx ky hkx hky hne
+
 end ZV.L11
